@@ -357,6 +357,88 @@ func runC06(cfg *vh.Config) error {
 	}
 	res.Notes = append(res.Notes, fmt.Sprintf("stage: after query %s", time.Since(t0)))
 
+	// ---- query-size: the size terms of C06_query_steps_linear_in_input (3 * keys + key bytes + values + value bytes),
+	// one family per term, sizes ascending: components of a dotted key (propertyAtPath walks / creates one container
+	// per component on the recursive type), values of one array parameter, keys without values, bytes of a
+	// container-valued parameter.  Implementation only (deadline + budget 2 s + 50 us/byte of query); a family stops
+	// at its first failure so the reported input is the smallest.
+	{
+		type qfam struct {
+			class string
+			t     *target
+			sizes []int
+			mk    func(n int) url.Values
+		}
+		big := cfg.Scale(20000, 200000)
+		fams := []qfam{
+			{"dotted key of n components on the recursive type", nested, []int{1, 10, 100, 1000, big}, func(n int) url.Values {
+				return url.Values{strings.Repeat("type.de3.", n) + "type.de1": {"x"}}
+			}},
+			{"dotted key of n components, unknown tail", nested, []int{1, 10, 100, 1000, big}, func(n int) url.Values {
+				return url.Values{strings.Repeat("type.de3.", n) + "nope": {"x"}}
+			}},
+			{"n values for one array parameter", full, []int{1, 10, 100, 1000, big, 5 * big}, func(n int) url.Values {
+				vs := make([]string, n)
+				for i := range vs {
+					vs[i] = "v"
+				}
+				return url.Values{"rString": vs}
+			}},
+			{"n keys without values", full, []int{1, 10, 100, 1000, big, 5 * big}, func(n int) url.Values {
+				q := url.Values{"sString": {"x"}}
+				for i := 0; i < n; i++ {
+					q[fmt.Sprintf("k%d", i)] = []string{}
+				}
+				return q
+			}},
+			{"container parameter of n members", full, []int{1, 10, 100, 1000, big}, func(n int) url.Values {
+				return url.Values{"sBar": {` {"barId":"b"` + strings.Repeat(`,"barId":null`, n) + `}`}}
+			}},
+			{"container parameter with a value of n bytes", full, []int{1, 100, 10000, 50 * big}, func(n int) url.Values {
+				return url.Values{"sBar": {`{"barId":"` + strings.Repeat("b", n) + `"}`}}
+			}},
+		}
+		for _, fam := range fams {
+			var maxT time.Duration
+			for _, n := range fam.sizes {
+				if tripped() || fam.t == nil {
+					break
+				}
+				q := fam.mk(n)
+				size := 0
+				for k, vs := range q {
+					size += 3 + len(k)
+					for _, v := range vs {
+						size += 1 + len(v)
+					}
+				}
+				o := decodeQuery(fam.t, q)
+				res.Count("query-size:" + fam.class)
+				res.Count("query-size-outcome:" + o.Kind)
+				if o.Elapsed > maxT {
+					maxT = o.Elapsed
+				}
+				input := map[string]any{"target": fam.t.Env.Root, "class": fam.class, "n": n, "query_size": size, "query": string(short([]byte(fmt.Sprintf("%q", map[string][]string(q)))))}
+				failed := true
+				switch {
+				case o.Kind == "panic":
+					res.Fail(vh.Failure{Case: em.caseNo, Stream: "query-size", Sig: fmt.Sprintf("C06 QueryToProto panics in %s: %s", o.Site, panicClass(o.Panic)), Clause: "query decoding never panics", Input: input, Got: o.Panic})
+				case o.hard():
+					res.Fail(hardFailure("C06", "QueryToProto", em.caseNo, "query-size", input, o))
+				case o.Elapsed > 2*time.Second+time.Duration(size)*50*time.Microsecond:
+					res.Fail(vh.Failure{Case: em.caseNo, Stream: "query-size", Sig: "C06 QueryToProto time not bounded by the size of the query: " + fam.class, Clause: "query decoding returns in time bounded by the input size", Input: input, Got: o.Elapsed.String()})
+				default:
+					failed = false
+				}
+				em.caseNo++
+				if failed {
+					break
+				}
+			}
+			res.Notes = append(res.Notes, fmt.Sprintf("max wall time, query-size %s: %s", fam.class, maxT))
+		}
+	}
+
 	// ---- nested Any values with a codec built WithProtoToAny (last: a hang here must not starve the other streams).
 	// decodeAny decodes the payload as its declared type, which may hold an Any again: one decode per level is
 	// quadratic at worst; a second decode per level is 2^depth.  Depths ascending, so the first failure is the
